@@ -1580,9 +1580,14 @@ func (c *Ctx) isSDKValue(v ssa.Value) bool {
 //	    of a bool function, and the walk G makes is bounded: the function it recurses in calls itself only with a
 //	    strict component of a data parameter, or with its list parameter extended by an element X of an SDK type
 //	    (finitely many) behind the negative outcome of slices.Contains(list, X);
-//	(b) a callee that is handed M stores into it only where the struct field the value is meant for was found to be
-//	    neither a pointer nor an interface (or there is no struct field), and its own recursion carries a visited path
-//	    (decided separately, as a class A self edge).
+//	(b) a callee that is handed M is called only where the receiver's field cache was found non-nil (the object is mapped
+//	    to a struct), stores into M only where the struct field the value is meant for was found to be neither a pointer
+//	    nor an interface (or there is no struct field), and its own recursion carries a visited path (decided
+//	    separately, as a class A self edge).
+//
+//	(c) where the walk of G selects the member of a one-of (a lookup in a receiver table of objects keyed by the type's
+//	    key parameter), the key comes out of the same conversion function that the one-of's UnserializeType uses before
+//	    its own lookup: the value walked is raw, decoded data, like the input of Unserialize (a JSON number is a float64).
 //
 // NOT checked by the machine, confirmed by reading: that G walks the value the way the recursion will (so that "G found
 // no place where v is needed again" means the recursion does not come back to this store with v), and that values built
@@ -1646,6 +1651,9 @@ func (c *Ctx) feedersGuarded(e termEdge) string {
 				if g == nil {
 					return ""
 				}
+				if !c.guardSelectsLikeUnserialize(g) {
+					return ""
+				}
 				guards = append(guards, c.M.Key(g))
 			case *ssa.Call:
 				passes := false
@@ -1662,6 +1670,24 @@ func (c *Ctx) feedersGuarded(e termEdge) string {
 					return ""
 				}
 				if !c.storesOnlyForValueFields(sc) {
+					return ""
+				}
+				// ... and only for an object that is mapped to a struct: the call is made where the receiver's field
+				// cache was found non-nil. (For a map-based object nothing bounds the nesting of what is built: two
+				// objects that refer to each other and have a default each would build each other's value for ever.)
+				structMapped := core.MustHold(fn, func(cond core.Cond) bool {
+					v, neq, ok := core.NilCmp(cond.V)
+					if !ok || neq != cond.True {
+						return false
+					}
+					ld, ok := v.(*ssa.UnOp)
+					if !ok {
+						return false
+					}
+					fa, ok := ld.X.(*ssa.FieldAddr)
+					return ok && fa.X == ssa.Value(fn.Params[0]) && strings.HasSuffix(typeStr(ld.Type()), "reflect.StructField")
+				})
+				if !structMapped[b] {
 					return ""
 				}
 				callees = append(callees, c.M.Key(sc))
@@ -1883,4 +1909,151 @@ func (c *Ctx) storesOnlyForValueFields(g *ssa.Function) bool {
 		}
 	}
 	return n > 0
+}
+
+// memberTableLookups: the lookups, in fn, in a map field of the receiver whose elements are of the SDK's Object
+// interface (the member table of a one-of), with the functions whose results the key is computed from.
+func (c *Ctx) memberTableLookups(fn *ssa.Function) (lookups []*ssa.Lookup, converters map[*ssa.Lookup]map[*ssa.Function]bool) {
+	converters = map[*ssa.Lookup]map[*ssa.Function]bool{}
+	if len(fn.Params) == 0 {
+		return
+	}
+	for _, b := range fn.Blocks {
+		for _, in := range b.Instrs {
+			lk, ok := in.(*ssa.Lookup)
+			if !ok {
+				continue
+			}
+			mt, ok := lk.X.Type().Underlying().(*types.Map)
+			if !ok {
+				continue
+			}
+			en, isNamedElem := mt.Elem().(*types.Named)
+			if !isNamedElem || en.Obj().Name() != "Object" || !reachedFrom(lk.X, fn.Params[0], 0) {
+				continue
+			}
+			lookups = append(lookups, lk)
+			set := map[*ssa.Function]bool{}
+			seen := map[ssa.Value]bool{}
+			var walk func(v ssa.Value, d int)
+			walk = func(v ssa.Value, d int) {
+				if v == nil || d > 8 || seen[v] {
+					return
+				}
+				seen[v] = true
+				switch x := v.(type) {
+				case *ssa.Call:
+					if sc := x.Call.StaticCallee(); sc != nil && strings.HasPrefix(c.M.Key(sc), "schema.") {
+						if o := sc.Origin(); o != nil {
+							set[o] = true
+						} else {
+							set[sc] = true
+						}
+					}
+					return
+				case *ssa.Extract:
+					walk(x.Tuple, d+1)
+				case *ssa.Phi:
+					for _, e := range x.Edges {
+						walk(e, d+1)
+					}
+				case *ssa.UnOp:
+					if al, ok := x.X.(*ssa.Alloc); ok {
+						for _, r := range *al.Referrers() {
+							if st, ok := r.(*ssa.Store); ok && st.Addr == ssa.Value(al) {
+								walk(st.Val, d+1)
+							}
+						}
+					}
+				case *ssa.TypeAssert:
+					walk(x.X, d+1)
+				case *ssa.ChangeType:
+					walk(x.X, d+1)
+				case *ssa.Convert:
+					walk(x.X, d+1)
+				case *ssa.MakeInterface:
+					walk(x.X, d+1)
+				}
+			}
+			walk(lk.Index, 0)
+			delete(set, nil)
+			converters[lk] = set
+		}
+	}
+	return
+}
+
+// guardSelectsLikeUnserialize: clause (c) of E-DEFAULTGUARD.
+func (c *Ctx) guardSelectsLikeUnserialize(g *ssa.Function) bool {
+	// the conversion functions of the one-of's Unserialize side
+	reference := map[*ssa.Function]bool{}
+	for _, named := range c.serializableTypes() {
+		for _, mn := range []string{"UnserializeType", "Unserialize"} {
+			fn := c.methodFn(named, mn)
+			if fn == nil || len(fn.Blocks) == 0 {
+				continue
+			}
+			lks, convs := c.memberTableLookups(fn)
+			if os.Getenv("VERIF_DEBUG") == "guard" {
+				println("GUARD side", c.M.Key(fn), len(lks))
+			}
+			for _, set := range convs {
+				for f := range set {
+					reference[f] = true
+				}
+			}
+		}
+	}
+	if os.Getenv("VERIF_DEBUG") == "guard" {
+		for f := range reference {
+			println("GUARD reference", c.M.Key(f))
+		}
+	}
+	if len(reference) == 0 {
+		return false
+	}
+	// what the guard reaches (same package, four levels)
+	reach := map[*ssa.Function]bool{g: true}
+	frontier := []*ssa.Function{g}
+	for depth := 0; depth < 4; depth++ {
+		var next []*ssa.Function
+		for _, f := range frontier {
+			for _, e := range c.M.Edges(f) {
+				if e.To.Pkg == g.Pkg && !reach[e.To] && len(e.To.Blocks) > 0 {
+					name := e.To.Name()
+					if name == "Unserialize" || name == "UnserializeType" || name == "Validate" || name == "Serialize" || compatName(name) == "ValidateCompatibility" {
+						continue // the data operations themselves are not part of the walk
+					}
+					reach[e.To] = true
+					next = append(next, e.To)
+				}
+			}
+		}
+		frontier = next
+	}
+	found := false
+	for f := range reach {
+		lookups, convs := c.memberTableLookups(f)
+		if os.Getenv("VERIF_DEBUG") == "guard" {
+			println("GUARD reach", c.M.Key(f), len(lookups))
+			for _, lk := range lookups {
+				for conv := range convs[lk] {
+					println("   conv", c.M.Key(conv))
+				}
+			}
+		}
+		for _, lk := range lookups {
+			found = true
+			ok := false
+			for conv := range convs[lk] {
+				if reference[conv] {
+					ok = true
+				}
+			}
+			if !ok {
+				return false
+			}
+		}
+	}
+	return found
 }
